@@ -5,6 +5,11 @@ import Synphot.Lemmas.Wave
 import Synphot.Lemmas.Trapz
 import Synphot.Lemmas.ObsPhot
 import Synphot.Core.WaveUnit
+import Synphot.Lemmas.C04x
+import Synphot.Lemmas.C03x
+import Synphot.Lemmas.Binning
+import Mathlib.Algebra.Order.Field.Rat
+import Mathlib.Tactic.NormNum
 
 set_option linter.unusedSectionVars false
 set_option linter.unusedVariables false
@@ -189,5 +194,381 @@ theorem frequency_unit_equivariance (cAA k : K) (hk : k ≠ 0) (hc : cAA ≠ 0) 
     simp only [List.map_cons, List.mapM_cons, WaveUnit.toAngstrom, hne, if_false, bind, Except.bind,
       ih (fun x hx => hpos x (List.mem_cons_of_mem _ hx)), pure, Except.pure]
     congr 2; field_simp
+
+/-! ## deepening (round 6): the verdict as a total function, its invariances, entry points -/
+
+/-! ### (a) the verdict -/
+
+/-- for EVERY list (length 0 and 1 included) the validator returns exactly one of four verdicts -/
+theorem verdict_total (w : List K) :
+    validateWavelengths w = .ok () ∨ validateWavelengths w = .error .zeroWavelength ∨
+    validateWavelengths w = .error .unsortedWavelength ∨ validateWavelengths w = .error .duplicateWavelength := by
+  unfold validateWavelengths
+  split_ifs <;> simp
+
+/-- the four verdicts in terms of list predicates that do not mention the model's own tests, with the
+documented priority (zero/negative, then non-monotone, then duplicate): the four right-hand sides are
+mutually exclusive and exhaustive because the four verdicts are -/
+theorem verdict_iff (w : List K) :
+    (validateWavelengths w = .ok () ↔
+      ((∀ x ∈ w, 0 < x) ∧ (w.IsChain (· < ·) ∨ w.IsChain (fun a b => b < a)))) ∧
+    (validateWavelengths w = .error .zeroWavelength ↔ ∃ x ∈ w, x ≤ 0) ∧
+    (validateWavelengths w = .error .unsortedWavelength ↔
+      ((∀ x ∈ w, 0 < x) ∧ ¬ w.IsChain (· ≤ ·) ∧ ¬ w.IsChain (fun a b => b ≤ a))) ∧
+    (validateWavelengths w = .error .duplicateWavelength ↔
+      ((∀ x ∈ w, 0 < x) ∧ (w.IsChain (· ≤ ·) ∨ w.IsChain (fun a b => b ≤ a)) ∧ ¬ w.Nodup)) := by
+  refine ⟨?_, validate_zero_iff w, ?_, ?_⟩
+  · rw [validate_ok_iff, strictAsc_iff_chain, strictDesc_iff_chain]
+  · rw [validate_unsorted_iff, ← weakAsc_iff_chain, ← weakDesc_iff_chain]
+    simp only [Bool.not_eq_true]
+  · rw [validate_duplicate_iff, ← weakAsc_iff_chain, ← weakDesc_iff_chain]
+    constructor
+    · rintro ⟨hp, hm, hd⟩
+      exact ⟨hp, hm, (C04x.hasAdjEq_iff_not_nodup w hm).mp hd⟩
+    · rintro ⟨hp, hm, hd⟩
+      exact ⟨hp, hm, (C04x.hasAdjEq_iff_not_nodup w hm).mpr hd⟩
+
+/-- the short lists: the empty array is accepted, a single wavelength is accepted iff it is positive -/
+theorem validate_short (x : K) :
+    validateWavelengths ([] : List K) = .ok () ∧
+    validateWavelengths [x] = if x ≤ 0 then .error .zeroWavelength else .ok () := by
+  constructor
+  · rfl
+  · unfold validateWavelengths
+    by_cases h : x ≤ 0 <;> simp [h, WeakAsc, WeakDesc, HasAdjEq]
+
+/-- the verdict (error class included) is invariant under multiplication by a positive scale: a change of
+length unit never changes what is rejected and why -/
+theorem validate_scale_invariant (k : K) (hk : 0 < k) (w : List K) :
+    validateWavelengths (w.map (· * k)) = validateWavelengths w := C04x.validate_scale k hk w
+
+/-- under the reciprocal map `x ↦ c/x` (frequency, wavenumber) a positive list keeps its verdict with the
+direction flipped: strictly ascending ⇔ the image strictly descending, and conversely -/
+theorem validate_reciprocal_invariant (c : K) (hc : 0 < c) (w : List K) (hpos : ∀ x ∈ w, 0 < x) :
+    validateWavelengths (w.map (c / ·)) = validateWavelengths w ∧
+    (StrictAsc w ↔ StrictDesc (w.map (c / ·))) ∧ (StrictDesc w ↔ StrictAsc (w.map (c / ·))) := by
+  obtain ⟨h1, h2, h3⟩ := C04x.validate_recip c hc w hpos
+  have h4 : HasAdjEq (w.map (c / ·)) = HasAdjEq w :=
+    C04x.hasAdjEq_map_inj (c / ·) w (fun a ha b hb => C04x.recip_eq_iff c hc a b (hpos a ha) (hpos b hb))
+  refine ⟨h1, ?_, ?_⟩
+  · rw [strictAsc_iff, strictDesc_iff, h3, h4]
+  · rw [strictAsc_iff, strictDesc_iff, h2, h4]
+
+/-- NO tolerance: two positive entries that differ AT ALL are not duplicates, and a `DuplicateWavelength`
+verdict always exhibits two neighbouring entries that are exactly equal -/
+theorem no_tolerance :
+    (∀ a b : K, 0 < a → 0 < b → a ≠ b → validateWavelengths [a, b] = .ok ()) ∧
+    (∀ w : List K, validateWavelengths w = .error .duplicateWavelength →
+      ∃ i, ∃ a, w[i]? = some a ∧ w[i + 1]? = some a) := by
+  constructor
+  · intro a b ha hb hab
+    rw [validate_ok_iff]
+    refine ⟨by intro x hx; simp at hx; rcases hx with rfl | rfl <;> assumption, ?_⟩
+    rcases lt_or_gt_of_ne hab with h | h
+    · exact Or.inl ⟨h, trivial⟩
+    · exact Or.inr ⟨h, trivial⟩
+  · intro w h
+    exact (C04x.hasAdjEq_iff_index w).mp ((validate_duplicate_iff w).mp h).2.2
+
+/-! ### wavelengths given in a unit: conversion, then the same verdict -/
+
+/-- a length unit (`k > 0` Angstrom per unit): the verdict is the verdict of the numbers themselves, and
+on acceptance the Angstrom values are returned in the caller's order -/
+theorem length_unit_verdict (cAA k : K) (hk : 0 < k) (w : List K) :
+    validateIn cAA (.length k) w = C04x.thenReturn (validateWavelengths w) (w.map (· * k)) := by
+  rw [C04x.validateIn_of_conv cAA (.length k) w (· * k) (fun x _ => rfl), C04x.validate_scale k hk w]
+
+/-- a frequency unit (`k > 0` Hz per unit, `c > 0`), positive frequencies: the same verdict as the numbers
+themselves, the returned Angstrom values `c/(ν k)` in the caller's order (so a grid ascending in frequency
+comes back descending in wavelength) -/
+theorem frequency_unit_verdict (cAA k : K) (hc : 0 < cAA) (hk : 0 < k) (w : List K) (hpos : ∀ x ∈ w, 0 < x) :
+    validateIn cAA (.freq k) w = C04x.thenReturn (validateWavelengths w) (w.map fun v => cAA / (v * k)) ∧
+    (StrictAsc w ↔ StrictDesc (w.map fun v => cAA / (v * k))) := by
+  have hconv : ∀ x ∈ w, (WaveUnit.freq k).toAngstrom cAA x = .ok (cAA / (x * k)) := by
+    intro x hx
+    simp [WaveUnit.toAngstrom, (hpos x hx).ne']
+  have hmap : (w.map fun v => cAA / (v * k)) = (w.map (· * k)).map (cAA / ·) := by
+    rw [List.map_map]; rfl
+  have hpos' : ∀ x ∈ w.map (· * k), 0 < x := by
+    intro x hx
+    obtain ⟨y, hy, rfl⟩ := List.mem_map.mp hx
+    exact mul_pos (hpos y hy) hk
+  obtain ⟨h1, h2, _⟩ := validate_reciprocal_invariant cAA hc (w.map (· * k)) hpos'
+  constructor
+  · rw [C04x.validateIn_of_conv cAA (.freq k) w _ hconv, hmap, h1, C04x.validate_scale k hk w]
+  · rw [hmap, ← h2]
+    constructor
+    · exact C04x.strictAsc_map_mul k hk w
+    · intro h
+      have := C04x.strictAsc_map_mul k⁻¹ (inv_pos.mpr hk) _ h
+      rw [List.map_map] at this
+      have hid : (w.map ((· * k⁻¹) ∘ (· * k))) = w := by
+        conv_rhs => rw [← List.map_id w]
+        apply List.map_congr_left
+        intro a _
+        simp only [Function.comp, id]
+        rw [mul_assoc, mul_inv_cancel₀ hk.ne', mul_one]
+      rwa [hid] at this
+
+/-- a wavenumber unit (`k > 0` Angstrom⁻¹ per unit): likewise with `1/(σ k)` -/
+theorem wavenumber_unit_verdict (cAA k : K) (hk : 0 < k) (w : List K) (hpos : ∀ x ∈ w, 0 < x) :
+    validateIn cAA (.wavenumber k) w = C04x.thenReturn (validateWavelengths w) (w.map fun v => 1 / (v * k)) := by
+  have hconv : ∀ x ∈ w, (WaveUnit.wavenumber k).toAngstrom cAA x = .ok (1 / (x * k)) := by
+    intro x hx
+    simp [WaveUnit.toAngstrom, (hpos x hx).ne']
+  have hmap : (w.map fun v => 1 / (v * k)) = (w.map (· * k)).map ((1 : K) / ·) := by
+    rw [List.map_map]; rfl
+  have hpos' : ∀ x ∈ w.map (· * k), 0 < x := by
+    intro x hx
+    obtain ⟨y, hy, rfl⟩ := List.mem_map.mp hx
+    exact mul_pos (hpos y hy) hk
+  rw [C04x.validateIn_of_conv cAA (.wavenumber k) w _ hconv, hmap,
+    (validate_reciprocal_invariant 1 one_pos (w.map (· * k)) hpos').1, C04x.validate_scale k hk w]
+
+/-- a negative frequency (none of them zero) is a negative wavelength: `ZeroWavelength`, never a number -/
+theorem negative_frequency_rejected (cAA k : K) (hc : 0 < cAA) (hk : 0 < k) (w : List K)
+    (hnz : ∀ x ∈ w, x ≠ 0) (hneg : ∃ x ∈ w, x < 0) :
+    validateIn cAA (.freq k) w = .error .zeroWavelength := by
+  have hconv : ∀ x ∈ w, (WaveUnit.freq k).toAngstrom cAA x = .ok (cAA / (x * k)) := by
+    intro x hx
+    simp [WaveUnit.toAngstrom, hnz x hx]
+  rw [C04x.validateIn_of_conv cAA (.freq k) w _ hconv]
+  obtain ⟨x, hx, hx0⟩ := hneg
+  have : validateWavelengths (w.map fun v => cAA / (v * k)) = .error .zeroWavelength := by
+    rw [validate_zero_iff]
+    exact ⟨cAA / (x * k), List.mem_map.mpr ⟨x, hx, rfl⟩,
+      le_of_lt (div_neg_of_pos_of_neg hc (mul_neg_of_neg_of_pos hx0 hk))⟩
+  rw [this]; rfl
+
+/-! ### (b) order equivariance at the entry points -/
+
+/-- `integrate(wavelengths=…)` gives the same number for a grid and for the reversed grid -/
+theorem integrate_order (E : Env K) (m : Tree K) (x : List K) (v : K)
+    (h : integrateTrapz E m x = .ok v) : integrateTrapz E m x.reverse = .ok v := by
+  unfold integrateTrapz at h ⊢
+  rw [validate_reverse]
+  cases hv : validateWavelengths x with
+  | error e => rw [hv] at h; cases h
+  | ok u =>
+    rw [hv] at h
+    cases hy : sampleTree E m x with
+    | error e => rw [hy] at h; cases h
+    | ok y =>
+      rw [hy] at h
+      have hlen : x.length = y.length := (C09.sampleTree_length E m x y hy).symm
+      rw [C09.sampleTree_reverse E m x y hy]
+      simp only [bind, Except.bind, pure, Except.pure] at h ⊢
+      injection h with h
+      rw [← h, List.map_reverse, C04x.trapzXY_reverse x (y.map fun v => |v|) (by simpa using hlen), abs_neg]
+
+/-- `pivot(wavelengths=…)` likewise -/
+theorem pivot_order (E : Env K) (thr : K) (m : Tree K) (x : List K) (v : K)
+    (h : pivot E thr m (some x) = .ok v) : pivot E thr m (some x.reverse) = .ok v := by
+  unfold pivot wavelengthsOr at h ⊢
+  simp only [] at h ⊢
+  rw [validate_reverse]
+  cases hv : validateWavelengths x with
+  | error e => rw [hv] at h; cases h
+  | ok u =>
+    rw [hv] at h
+    simp only [bind, Except.bind, pure, Except.pure] at h ⊢
+    cases hy : sampleTree E m x with
+    | error e => rw [hy] at h; cases h
+    | ok y =>
+      rw [hy] at h
+      have hlen : x.length = y.length := (C09.sampleTree_length E m x y hy).symm
+      rw [C09.sampleTree_reverse E m x y hy]
+      simp only [] at h ⊢
+      have hl2 : ∀ f : K × K → K, x.length = ((x.zip y).map f).length := by intro f; simp [hlen]
+      rw [C04x.zip_map_reverse x y hlen, C04x.zip_map_reverse x y hlen,
+        C04x.trapzXY_reverse x _ (hl2 _), C04x.trapzXY_reverse x _ (hl2 _), neg_div_neg_eq]
+      simp only [neg_eq_zero]
+      exact h
+
+/-! ### (c) the bin-based entry point -/
+
+/-- `calculate_bin_edges` rejects exactly what validation rejects (with the validator's own error) plus the
+lists shorter than two (`SynphotError`), and accepts everything else -/
+theorem calcBinEdges_verdict (c : List K) :
+    (∀ e, calcBinEdges c = .error e ↔
+      ((c.length < 2 ∧ e = .synphotError) ∨ (2 ≤ c.length ∧ validateWavelengths c = .error e))) ∧
+    ((∃ ed, calcBinEdges c = .ok ed) ↔ (2 ≤ c.length ∧ validateWavelengths c = .ok ())) := by
+  by_cases h2 : c.length < 2
+  · have hcalc : calcBinEdges c = .error .synphotError := by unfold calcBinEdges; rw [if_pos h2]
+    constructor
+    · intro e
+      rw [hcalc]
+      constructor
+      · intro h; injection h with h; exact Or.inl ⟨h2, h.symm⟩
+      · rintro (⟨_, rfl⟩ | ⟨h, _⟩)
+        · rfl
+        · omega
+    · rw [hcalc]
+      constructor
+      · rintro ⟨ed, h⟩; cases h
+      · rintro ⟨h, _⟩; omega
+  · have h2' : 2 ≤ c.length := by omega
+    obtain ⟨ed, hed⟩ := (binEdges_ok_iff c).mpr h2'
+    cases hv : validateWavelengths c with
+    | error err =>
+      have hcalc := calcBinEdges_rejects c err h2' hv
+      constructor
+      · intro e
+        rw [hcalc]
+        constructor
+        · intro h; injection h with h; exact Or.inr ⟨h2', by rw [h]⟩
+        · rintro (⟨h, _⟩ | ⟨_, h⟩)
+          · omega
+          · injection h with h; rw [h]
+      · rw [hcalc]
+        constructor
+        · rintro ⟨_, h⟩; cases h
+        · rintro ⟨_, h⟩; cases h
+    | ok u =>
+      have hcalc := calcBinEdges_eq c ed hv hed
+      constructor
+      · intro e
+        rw [hcalc]
+        constructor
+        · intro h; cases h
+        · rintro (⟨h, _⟩ | ⟨_, h⟩)
+          · omega
+          · cases h
+      · rw [hcalc]
+        exact ⟨fun _ => ⟨h2', rfl⟩, fun _ => ⟨ed, rfl⟩⟩
+
+/-! ### non-vacuity of the round-6 theorems -/
+
+def exEnv : Env ℚ :=
+  ⟨⟨1, 1, 1, 1, 1⟩, ⟨fun _ => 0, fun _ => 0, fun _ => 0, fun _ => 0, fun _ => 0, fun x => x, fun _ => 0,
+    fun _ _ => 0, 0, fun _ => 0, fun _ => 0⟩⟩
+
+/-- the four verdicts, with the priority: a zero wins over disorder and duplicates, disorder over duplicates -/
+example : validateWavelengths ([3, 2, 1] : List ℚ) = .ok () ∧
+    validateWavelengths ([2, 2, 1, 3, 0] : List ℚ) = .error .zeroWavelength ∧
+    validateWavelengths ([2, 2, 1, 3] : List ℚ) = .error .unsortedWavelength ∧
+    validateWavelengths ([1, 2, 2] : List ℚ) = .error .duplicateWavelength := by decide
+
+example : validateWavelengths ([2, 2, 1, 3] : List ℚ) = .ok () ∨
+    validateWavelengths ([2, 2, 1, 3] : List ℚ) = .error .zeroWavelength ∨
+    validateWavelengths ([2, 2, 1, 3] : List ℚ) = .error .unsortedWavelength ∨
+    validateWavelengths ([2, 2, 1, 3] : List ℚ) = .error .duplicateWavelength := verdict_total _
+
+example : ¬ ([1, 2, 2] : List ℚ).Nodup := ((verdict_iff _).2.2.2.mp (by decide)).2.2
+
+example : validateWavelengths [(-1 : ℚ)] = .error .zeroWavelength := by
+  have := (validate_short (-1 : ℚ)).2
+  rwa [if_pos (by norm_num)] at this
+
+example : validateWavelengths (([1, 2, 2] : List ℚ).map (· * 10)) = .error .duplicateWavelength := by
+  rw [validate_scale_invariant 10 (by norm_num)]; decide
+
+example : StrictDesc (([1, 2, 4] : List ℚ).map (8 / ·)) :=
+  (validate_reciprocal_invariant 8 (by norm_num) _
+    (by intro x hx; simp at hx; rcases hx with rfl | rfl | rfl <;> norm_num)).2.1.mp (by norm_num [StrictAsc])
+
+/-- any difference at all, however small, is enough -/
+example (ε : ℚ) (hε : 0 < ε) : validateWavelengths [1, 1 + ε] = .ok () :=
+  no_tolerance.1 1 (1 + ε) one_pos (by linarith) (by linarith)
+
+example : ∃ i, ∃ a, ([1, 2, 2] : List ℚ)[i]? = some a ∧ ([1, 2, 2] : List ℚ)[i + 1]? = some a :=
+  no_tolerance.2 _ (by decide)
+
+example : validateIn (3 : ℚ) (.length 10) [1, 2] = .ok [10, 20] := by
+  have hv : validateWavelengths ([1, 2] : List ℚ) = .ok () := by decide
+  rw [length_unit_verdict 3 10 (by norm_num), hv]
+  norm_num [C04x.thenReturn]
+
+example : validateIn (8 : ℚ) (.freq 1) [1, 2] = .ok [8, 4] := by
+  have hv : validateWavelengths ([1, 2] : List ℚ) = .ok () := by decide
+  rw [(frequency_unit_verdict 8 1 (by norm_num) (by norm_num) [1, 2]
+    (by intro x hx; simp at hx; rcases hx with rfl | rfl <;> norm_num)).1, hv]
+  norm_num [C04x.thenReturn]
+
+example : validateIn (8 : ℚ) (.wavenumber 1) [1, 2] = .ok [1, 1 / 2] := by
+  have hv : validateWavelengths ([1, 2] : List ℚ) = .ok () := by decide
+  rw [wavenumber_unit_verdict 8 1 (by norm_num) [1, 2]
+    (by intro x hx; simp at hx; rcases hx with rfl | rfl <;> norm_num), hv]
+  norm_num [C04x.thenReturn]
+
+example : validateIn (8 : ℚ) (.freq 1) [1, -2] = .error .zeroWavelength :=
+  negative_frequency_rejected 8 1 (by norm_num) (by norm_num) _
+    (by intro x hx; simp at hx; rcases hx with rfl | rfl <;> norm_num) ⟨-2, by simp, by norm_num⟩
+
+theorem ex_integrate : integrateTrapz exEnv (.leaf (.const1 2)) ([1, 2, 4] : List ℚ) = .ok 6 := by
+  have hv : validateWavelengths ([1, 2, 4] : List ℚ) = .ok () := by decide
+  simp only [integrateTrapz, hv, sampleTree, List.mapM_cons, List.mapM_nil, Tree.eval, Leaf.eval, bind, Except.bind,
+    pure, Except.pure, trapzXY, List.map, List.zip_cons_cons, List.zip_nil_right, trapz]
+  norm_num
+
+example : integrateTrapz exEnv (.leaf (.const1 2)) ([1, 2, 4] : List ℚ).reverse = .ok 6 :=
+  integrate_order _ _ _ _ ex_integrate
+
+theorem ex_pivot : pivot exEnv 0 (.leaf (.const1 2)) (some ([1, 2] : List ℚ)) = .ok 2 := by
+  have hv : validateWavelengths ([1, 2] : List ℚ) = .ok () := by decide
+  simp only [pivot, wavelengthsOr, hv, sampleTree, List.mapM_cons, List.mapM_nil, Tree.eval, Leaf.eval, bind,
+    Except.bind, pure, Except.pure, trapzXY, List.map, List.zip_cons_cons, List.zip_nil_right, trapz, exEnv]
+  norm_num
+
+example : pivot exEnv 0 (.leaf (.const1 2)) (some ([1, 2] : List ℚ).reverse) = .ok 2 :=
+  pivot_order _ _ _ _ _ ex_pivot
+
+example : calcBinEdges ([5] : List ℚ) = .error .synphotError :=
+  ((calcBinEdges_verdict _).1 _).mpr (Or.inl ⟨by decide, rfl⟩)
+
+example : calcBinEdges ([1, 2, 2] : List ℚ) = .error .duplicateWavelength :=
+  ((calcBinEdges_verdict _).1 _).mpr (Or.inr ⟨by decide, by decide⟩)
+
+example : ∃ ed, calcBinEdges ([1, 2, 4] : List ℚ) = .ok ed :=
+  (calcBinEdges_verdict _).2.mpr ⟨by decide, by decide⟩
+
+/-! ### tapering on caller-given wavelengths, either order -/
+
+/-- the ascending arrangement `taper` works on is the same for a valid grid and for its reversal -/
+theorem ascending_arrangement_reverse (w : List K) (hv : validateWavelengths w = .ok ()) :
+    (if isDesc w.reverse then w.reverse.reverse else w.reverse) = (if isDesc w then w.reverse else w) := by
+  obtain ⟨_, hm⟩ := (validate_ok_iff w).mp hv
+  match w, hm with
+  | [], _ => simp [isDesc]
+  | [a], _ => simp [isDesc]
+  | a :: b :: l, hm =>
+    obtain ⟨a', b', l', hr⟩ : ∃ a' b' l', (a :: b :: l).reverse = a' :: b' :: l' := by
+      match h : (a :: b :: l).reverse with
+      | [] => simp at h
+      | [x] => have := congrArg List.length h; simp at this
+      | a' :: b' :: l' => exact ⟨a', b', l', rfl⟩
+    rcases hm with hs | hs
+    · have h1 : isDesc (a :: b :: l) = false := isDesc_false_of_asc _ hs
+      have hd : StrictDesc (a :: b :: l).reverse := (strictDesc_reverse _).mpr hs
+      have h2 : isDesc (a :: b :: l).reverse = true := by
+        rw [hr] at hd ⊢; exact C03x.isDesc_of_strictDesc a' b' l' hd
+      rw [h1, h2]; simp
+    · have h1 : isDesc (a :: b :: l) = true := C03x.isDesc_of_strictDesc a b l hs
+      have h2 : isDesc (a :: b :: l).reverse = false :=
+        isDesc_false_of_asc _ ((strictAsc_reverse _).mpr hs)
+      rw [h1, h2]; simp
+
+/-- `taper(wavelengths=…)` returns the same spectrum for a grid and for the reversed grid, and the same
+error for an invalid one -/
+theorem taper_order (E : Env K) (thr : K) (s : Spec K) (w : List K) :
+    s.taper E thr (some w.reverse) = s.taper E thr (some w) := by
+  unfold Spec.taper
+  cases hm : s.model with
+  | error e => rfl
+  | ok m =>
+    simp only [bind, Except.bind, pure, Except.pure]
+    rw [validate_reverse]
+    cases hv : validateWavelengths w with
+    | error e => rfl
+    | ok u =>
+      simp only []
+      rw [ascending_arrangement_reverse w hv]
+
+example (s : Spec ℚ) : s.taper exEnv 0 (some ([2, 3] : List ℚ).reverse) = s.taper exEnv 0 (some [2, 3]) :=
+  taper_order _ _ _ _
+
+example : (if isDesc ([3, 2] : List ℚ).reverse then ([3, 2] : List ℚ).reverse.reverse else ([3, 2] : List ℚ).reverse) =
+    (if isDesc ([3, 2] : List ℚ) then ([3, 2] : List ℚ).reverse else [3, 2]) :=
+  ascending_arrangement_reverse _ (by decide)
 
 end Synphot.C04
